@@ -145,6 +145,12 @@ sim::Json generate(const std::string& tier, uint64_t seed, uint64_t index) {
     }
   }
   if (rng.chance(0.03)) { sc.set("alloc_fail_nth", (long)rng.below(4)); faulted = true; }
+  // second driver party: the repository's own sample driver (solvers/visitor) instead of the scripted stub.  It knows
+  // other options and answers every model the same way, so nothing about the outcome is strict - but it must end well.
+  if (rng.chance(0.12)) {
+    sc.set("driver", "visitor");
+    if (label == "LINEAR_CLEAN" || label == "LINEAR_OPTS" || label == "SOLVER_FAILS") label = "GENERAL";
+  }
   sc.set("label", label);
   sc.set("faulted", faulted);
   sc.set("wantsol", wantsol);
@@ -178,6 +184,7 @@ void judge(const sim::Json& sc, const RunRecord& rec, sim::RunResult& r) {
   long nvars = sc["expect"]["nvars"].as_int(), ncons = sc["expect"]["ncons"].as_int();
   bool solve_called = false;
   for (auto& c : rec.stub.calls) if (c == "Solve") solve_called = true;
+  const bool visitor = sc["driver"].as_str() == "visitor";   // no stub record: whether its solver ran is read off the result class below
   std::string fired_key = "nofault";
   for (auto& f : rec.faults) if (f.fired) { fired_key = f.role + "." + f.op + "." + f.kind; break; }
   for (auto& f : rec.faults) if (f.fired && f.role == "sol") { fired_key = f.role + "." + f.op + "." + f.kind; break; }
@@ -204,6 +211,7 @@ void judge(const sim::Json& sc, const RunRecord& rec, sim::RunResult& r) {
                std::to_string(sf.ncons) + " " + std::to_string(sf.nduals) + " " + std::to_string(sf.nvars) + " " + std::to_string(sf.nprimals));
       }
       std::string msg = sf.message_text();
+      if (visitor) solve_called = !((sf.code >= 200 && sf.code <= 299) || (sf.code >= 500 && sf.code <= 999));
       if (!solve_called) {
         bool ok_class = (sf.code >= 200 && sf.code <= 299) || (sf.code >= 500 && sf.code <= 999);
         if (!ok_class)
@@ -247,6 +255,7 @@ void judge(const sim::Json& sc, const RunRecord& rec, sim::RunResult& r) {
   }
   r.nontrivial = faulted || label != "LINEAR_CLEAN" || !rec.fired.empty();
   r.stats.set("label." + label, 1);
+  if (visitor) r.stats.set("driver.visitor", 1);
   r.stats.set("outcome." + outcome, 1);
   r.stats.set("cell." + label + "." + outcome, 1);
   if (stale_left) r.stats.set("stale_sol_left_in_place", 1);
